@@ -4,11 +4,12 @@ From Coq Require Import Permutation.
 From EQL Require Import Base PredForm Registry Registry_Facts.
 
 (* For EVERY class table and EVERY finite history of concrete constructions (any class, any signature style), symbolic
-   constructions, rule inferences (any number of instances), clearings and queries, observed step by step: every query of a
+   constructions, rule inferences (any number of instances), clearings, queries and ABANDONED queries (k results taken, then
+   closed), observed step by step: every query of a
    class T returns a permutation of the concrete constructions of T and of its subclasses logged since the last clearing
    (reference: a plain list, Registry.refstep), WITHOUT repetition, and the number of initialisations that ran equals the
    number of concrete constructions (so symbolic construction never initialises). *)
-Theorem C14_registry : forall ct ops, Forall2 obs_ok (rrun ct rinit ops) (refrun ct refinit ops).
+Theorem C14_registry : forall ct ops, all_obs_ok ops (rrun ct rinit ops) (refrun ct refinit ops).
 Proof. intros ct ops. exact (run_refines ct ops rinit refinit inv_init). Qed.
 Print Assumptions C14_registry.
 
